@@ -527,13 +527,12 @@ func (f *dataFamily) WriteRows(rows []*metric.StorageRow) error {
 		return nil
 	}
 
-	db, err := f.GetOrCreateMemoryDatabase(f.familyTime)
+	db, err := f.acquireMemoryDatabase()
 	if err != nil {
 		// all rows are dropped
 		f.statistics.WriteMetricFailures.Add(float64(len(rows)))
 		return err
 	}
-	db.AcquireWrite()
 	defer func() {
 		f.statistics.WriteBatches.Incr()
 		db.CompleteWrite()
@@ -601,6 +600,26 @@ func (f *dataFamily) GetOrCreateMemoryDatabase(familyTime int64) (memdb.MemoryDa
 	f.mutex.Lock()
 	defer f.mutex.Unlock()
 
+	return f.getOrCreateMemoryDatabase(familyTime)
+}
+
+// acquireMemoryDatabase returns the writable memory database with a write acquired on it.
+// NOTE: the write must be acquired under the lock which picks the memory database, Flush marks it as immutable
+// under the same lock then only waits for the acquired writes, otherwise rows are written into a flushed database.
+func (f *dataFamily) acquireMemoryDatabase() (memdb.MemoryDatabase, error) {
+	f.mutex.Lock()
+	defer f.mutex.Unlock()
+
+	db, err := f.getOrCreateMemoryDatabase(f.familyTime)
+	if err != nil {
+		return nil, err
+	}
+	db.AcquireWrite()
+	return db, nil
+}
+
+// getOrCreateMemoryDatabase returns the writable memory database, creates it if not exist(NOTE: caller must hold the lock).
+func (f *dataFamily) getOrCreateMemoryDatabase(familyTime int64) (memdb.MemoryDatabase, error) {
 	if f.mutableMemDB == nil {
 		newDB, err := newMemoryDBFunc(&memdb.MemoryDatabaseCfg{
 			FamilyTime:    familyTime,
